@@ -87,4 +87,121 @@ def H3():
     return Program(top, ['e0', 'e1', 'e2', 'e3'])
 
 
-CATALOG = {f.__name__: f for f in (F1, R2, R3, H2, H3)}
+def X():
+    """direct entry, fork, entry point, exit point (modelled on test/Entries.cpp)"""
+    sub = Machine('SubX', [['S1', 'S2', 'S3', 'Pe', 'Px'], ['T1', 'T2']],
+                  [St('S2', kind='direct', region=0), St('T2', kind='direct', region=1),
+                   St('Pe', kind='entry', region=0), St('Px', kind='exit', region=0, exit_event='e6')],
+                  [Row('S1', 'e0', 'S2', act=1, guard=1),
+                   Row('Pe', 'e4', 'S3', act=2),
+                   Row('S3', 'e5', 'Px', act=3, guard=2),
+                   Row('T1', 'e0', 'T2', act=4, guard=3),
+                   Row('S2', 'e1', 'S1', act=5),
+                   Row('S2', 'e5', 'S3', act=6)])
+    m = Machine('X', [['A', 'SubX', 'B']],
+                [St('SubX', kind='sub', sub=sub)],
+                [Row('A', 'e1', 'SubX', act=10),
+                 Row('A', 'e2', ('direct', 'SubX', ['S2']), act=11),
+                 Row('A', 'e3', ('direct', 'SubX', ['S2', 'T2']), act=12, guard=4),
+                 Row('A', 'e4', ('entry', 'SubX', 'Pe'), act=13),
+                 Row(('exit', 'SubX', 'Px'), 'e6', 'B', act=14, guard=5),
+                 Row('SubX', 'e7', 'A', act=15),
+                 Row('B', 'e7', 'A', act=16),
+                 Row('B', 'e6', None, act=17)])
+    p = Program(m, ['e0', 'e1', 'e2', 'e3', 'e4', 'e5', 'e6', 'e7'])
+    p.evt_extra = {'e6': 'e6(e5 const& o) : p(o.p) {}'}
+    return p
+
+
+def _HI(history, name):
+    sub = Machine('SubH', [['S1', 'S2', 'S3'], ['T1', 'T2']],
+                  [St('S3', kind='direct', region=0)],
+                  [Row('S1', 'e0', 'S2', act=1),
+                   Row('S2', 'e0', 'S3', act=2, guard=1),
+                   Row('S3', 'e0', 'S1', act=3),
+                   Row('T1', 'e3', 'T2', act=4, guard=2),
+                   Row('T2', 'e3', 'T1', act=5)],
+                  history=history)
+    m = Machine(name, [['A', 'SubH']],
+                [St('SubH', kind='sub', sub=sub)],
+                [Row('A', 'e1', 'SubH', act=10),
+                 Row('A', 'e2', 'SubH', act=11, guard=3),
+                 Row('A', 'e4', ('direct', 'SubH', ['S3']), act=12),
+                 Row('A', 'e5', ('direct', 'SubH', ['S3']), act=15),
+                 Row('SubH', 'e7', 'A', act=13),
+                 Row('SubH', 'e1', 'SubH', act=14, guard=4)])
+    return Program(m, ['e0', 'e1', 'e2', 'e3', 'e4', 'e5', 'e7'])
+
+
+def HIn(): return _HI('none', 'HIn')
+def HIa(): return _HI('always', 'HIa')
+def HIs(): return _HI(('shallow', ['e1', 'e5']), 'HIs')
+
+
+def A():
+    """completion (anonymous) transitions: guards, conflict, chain"""
+    m = Machine('A', [['A0', 'A1', 'A2', 'A3', 'A4']], [],
+                [Row('A0', 'e0', 'A1', act=1),
+                 Row('A1', None, 'A2', act=2, guard=1),
+                 Row('A1', None, 'A3', act=3, guard=2),
+                 Row('A2', None, 'A4', act=4),
+                 Row('A3', 'e1', 'A0', act=5),
+                 Row('A4', 'e1', 'A0', act=6),
+                 Row('A1', 'e1', 'A0', act=7),
+                 Row('A1', 'e2', None, act=8)])
+    return Program(m, ['e0', 'e1', 'e2'])
+
+
+def Ai():
+    """completion from the initial state at start() and inside a submachine"""
+    sub = Machine('SubA', [['C0', 'C1', 'C2']], [],
+                  [Row('C0', None, 'C1', act=1, guard=1),
+                   Row('C1', 'e0', 'C2', act=2),
+                   Row('C2', None, 'C0', act=3, guard=2)])
+    m = Machine('Ai', [['I', 'B0', 'SubA']],
+                [St('SubA', kind='sub', sub=sub)],
+                [Row('I', None, 'B0', act=10, guard=3),
+                 Row('B0', 'e1', 'SubA', act=11),
+                 Row('I', 'e1', 'SubA', act=12),
+                 Row('SubA', 'e2', 'B0', act=13)])
+    return Program(m, ['e0', 'e1', 'e2'])
+
+
+def T():
+    """terminate and interrupt states in the root, two regions"""
+    m = Machine('T', [['N1', 'N2', 'Term'], ['M1', 'Intr', 'M2']],
+                [St('Term', kind='term', flags=['F0']), St('Intr', kind='intr', end_events=['e3'], flags=['F1'])],
+                [Row('N1', 'e0', 'N2', act=1, guard=1),
+                 Row('N2', 'e0', 'N1', act=2),
+                 Row('N1', 'e1', 'Term', act=3, guard=2),
+                 Row('M1', 'e2', 'Intr', act=4),
+                 Row('Intr', 'e3', 'M2', act=5, guard=3),
+                 Row('M2', 'e2', 'M1', act=6),
+                 Row('N1', 'e3', None, act=7)])
+    p = Program(m, ['e0', 'e1', 'e2', 'e3'])
+    p.flags = ['F0', 'F1']
+    return p
+
+
+def FL():
+    """user flags on simple states, on a submachine and on its substates"""
+    sub = Machine('SubF', [['S1', 'S2'], ['T1', 'T2']],
+                  [St('S2', flags=['F0']), St('T2', flags=['F0', 'F2'])],
+                  [Row('S1', 'e0', 'S2', act=1, guard=1),
+                   Row('S2', 'e0', 'S1', act=2),
+                   Row('T1', 'e1', 'T2', act=3, guard=2),
+                   Row('T2', 'e1', 'T1', act=4)],
+                  flags=['F1'])
+    m = Machine('FL', [['Idle', 'SubF', 'Other'], ['P1', 'P2']],
+                [St('SubF', kind='sub', sub=sub), St('Idle', flags=['F2']), St('Other', flags=['F2', 'F0']), St('P2', flags=['F2'])],
+                [Row('Idle', 'e2', 'SubF', act=10),
+                 Row('SubF', 'e3', 'Other', act=11, guard=3),
+                 Row('Other', 'e2', 'Idle', act=12),
+                 Row('P1', 'e3', 'P2', act=13, guard=4),
+                 Row('P2', 'e2', 'P1', act=14)])
+    p = Program(m, ['e0', 'e1', 'e2', 'e3'])
+    p.flags = ['F0', 'F1', 'F2']
+    return p
+
+
+CATALOG = {f.__name__: f for f in (F1, R2, R3, H2, H3, X, HIn, HIa, HIs, A, Ai, T, FL)}
